@@ -32,6 +32,12 @@ def eval_bool(e, val, depth=0):
             b = res(e.id)
             if b is not None:
                 return eval_bool(b, val, depth + 1)
+        fnode = getattr(val, 'fnode', None)
+        if isinstance(e, ast.Name) and fnode is not None and depth < 6:
+            from .core import single_bindings
+            b = single_bindings(fnode).get(e.id)
+            if b is not None:
+                return eval_bool(b, val, depth + 1)
         raise
 
 
@@ -110,6 +116,7 @@ def atom_valuation(mapping, assignment, resolver=None, fnode=None):
                 return assignment[a] if (pol == cp) else not assignment[a]
         raise Incomplete('condition atom `%s` is not understood by this rule' % text)
     val.resolver = resolver
+    val.fnode = fnode
     return val
 
 
@@ -363,8 +370,9 @@ def _check_iterative(model, R, P, B, d, cfg, ap, ap_stmt, wl):
     f = B.f
     # stack variable: the while test
     stack = wl.test.id if isinstance(wl.test, ast.Name) else None
-    if stack is None and isinstance(wl.test, ast.Compare):
-        stack = next((n.id for n in ast.walk(wl.test) if isinstance(n, ast.Name)), None)
+    if stack is None:
+        # `while len(stack) > 0` / `while len(stack)` / `while stack != []` / `while not not stack`
+        stack = next((n.id for n in ast.walk(wl.test) if isinstance(n, ast.Name) and n.id not in ('len', 'bool')), None)
     pops = [n for n in body_walk(wl) if isinstance(n, ast.Assign) and isinstance(n.value, ast.Call) and isinstance(n.value.func, ast.Attribute)
             and n.value.func.attr == 'pop' and norm(n.value.func.value) == stack and isinstance(n.targets[0], ast.Tuple) and len(n.targets[0].elts) == 2]
     if len(pops) != 1:
@@ -639,10 +647,12 @@ def check_buffer_discipline(model, R, P, B):
     bad = []
     try:
         for L, N in itertools.product((False, True), repeat=2):
-            val = atom_valuation(mapping, dict(L=L, N=N))
+            val = atom_valuation(mapping, dict(L=L, N=N), fnode=f.node)
             acc = asg = 0
+            from .core import inline_expr as _inl
             for n in seeds:
-                conds = [(e, p) for e, p in B.cfg.conditions(n) if rel2(e)]
+                # a flag computed from the atoms (`accumulate = self.is_leaf and self._grad is not None`) is read through its definition
+                conds = [(e2, p) for e2, p in ((_inl(f.node, e), p) for e, p in B.cfg.conditions(n)) if rel2(e2)]
                 if all(eval_bool(e, val) == p for e, p in conds):
                     if isinstance(n, ast.AugAssign) and isinstance(n.op, ast.Add):
                         acc += 1
@@ -719,6 +729,31 @@ def check_seed_owned(model, R, P, B):
             mapping['%s.matches_shape(%s)' % (recv, a_)] = ('M', True)
     mapping['%s.shape == %s.shape' % (gname, s)] = ('M', True)
     mapping['%s.shape == %s.shape' % (s, gname)] = ('M', True)
+    # the same test on whatever local the (validated) gradient is held in: the checked value must be the one the seed is computed from
+    seed_sources = set()
+    for n in seeds:
+        todo, seen_n = [n.value], set()
+        while todo:
+            e = todo.pop()
+            for x in ast.walk(e):
+                if isinstance(x, ast.Name) and x.id not in seen_n:
+                    seen_n.add(x.id)
+                    todo += [b.value for b in body_walk(f.node) if isinstance(b, ast.Assign) and any(isinstance(t, ast.Name) and t.id == x.id for t in b.targets)]
+        seed_sources |= seen_n
+    for n in body_walk(f.node):
+        if isinstance(n, ast.If):
+            for c in ast.walk(n.test):
+                if isinstance(c, ast.Call) and isinstance(c.func, ast.Attribute) and c.func.attr == 'matches_shape' and norm(c.func.value) == s and len(c.args) == 1:
+                    a0 = c.args[0].value if isinstance(c.args[0], ast.Attribute) and c.args[0].attr == 'data' else c.args[0]
+                    if isinstance(a0, ast.Name) and a0.id in seed_sources:
+                        mapping[norm(c)] = ('M', True)
+                if isinstance(c, ast.Compare) and len(c.ops) == 1 and isinstance(c.ops[0], (ast.Eq, ast.NotEq)):
+                    sides = [c.left, c.comparators[0]]
+                    if all(isinstance(x, ast.Attribute) and x.attr == 'shape' for x in sides):
+                        roots = [norm(x.value.value) if isinstance(x.value, ast.Attribute) and x.value.attr == 'data' else norm(x.value) for x in sides]
+                        if s in roots and any(r in seed_sources for r in roots if r != s):
+                            eq_text = '%s == %s' % (norm(sides[0]), norm(sides[1]))
+                            mapping[eq_text] = ('M', True)
     ok_tab, _why = guard_table(f, B.cfg, mapping, lambda a: not a['M'], [_top_stmt(f.node, n) for n in seeds])
     ok = via_setter or ok_tab
     R.ob(P + '.SEED-OWNED', f.qualname, 'shape check before seeding', ok and bool(seeds), 'a seed of a different shape must be rejected (matches_shape -> raise) before it is installed', f.loc)
